@@ -33,6 +33,10 @@ type World struct {
 	fnShort   map[*ssa.Function]string
 	valIdx    map[ssa.Value]int32
 	fnSlots   map[*ssa.Function]int32
+	// package-level variables of dependencies that their (not executed)
+	// initialisers would set
+	initStores map[*ssa.Global]bool
+	pureInitOf map[*ssa.Package]*ssa.Function // initialisers of whitelisted pure packages, run on first use of one of their variables
 }
 
 func (w *World) short(fn *ssa.Function) string {
@@ -72,6 +76,8 @@ type Interp struct {
 	orderDev  bool   // a non-default iteration order was taken on this path
 	rangeCount int
 	releasedUse bool
+	runningPureInit bool
+	pureDone        map[*ssa.Package]bool
 	pools       map[*Val][]Val
 	ifConverted int
 	noIfConv    bool
@@ -274,14 +280,31 @@ func (in *Interp) globalAddr(g *ssa.Global) Ptr {
 	if p, ok := in.globals[g]; ok {
 		return p
 	}
+	if ini := in.w.pureInitOf[g.Pkg]; ini != nil && !in.pureDone[g.Pkg] {
+		in.pureDone[g.Pkg] = true
+		saved, savedBudget := in.runningPureInit, in.stepBudget
+		in.runningPureInit, in.stepBudget = true, 1<<30
+		steps := in.steps
+		in.runInit(ini)
+		in.steps = steps
+		in.runningPureInit, in.stepBudget = saved, savedBudget
+		if p, ok := in.globals[g]; ok {
+			return p
+		}
+	}
 	o := in.newObj(1, "global "+g.String())
 	o.Global = true
 	o.Cells[0] = in.zero(g.Type().(*types.Pointer).Elem())
+	special := false
 	if g.Pkg != nil && g.Pkg.Pkg.Path() == "io" {
 		if txt, ok := ioErrText[g.Name()]; ok {
 			e := &ErrV{Msg: strOf(txt), Name: "io." + g.Name()}
 			o.Cells[0] = Iface{T: in.w.errT, V: e}
+			special = true
 		}
+	}
+	if !special && in.w.initStores[g] && !in.runningPureInit {
+		panic(pathEnd{"inconclusive", "the code reads " + g.String() + ", which is set by a package initialiser the engine does not run"})
 	}
 	p := Ptr{&o.Cells[0], o}
 	in.globals[g] = p
